@@ -176,6 +176,10 @@ func init() {
 		k.OverdraftFlag = gen.Chance(t, "c12c.od", 50)
 		k.PWorldFallback = 40
 		k.PRich = 30
+		// one fetch naming many accounts (an implementation may split it into several calls)
+		if gen.Chance(t, "c12c.wide", 8) {
+			return wideQueryCase(t)
+		}
 		return gen.NewTG(t, k).Case()
 	}
 }
@@ -326,10 +330,17 @@ func genC12B(t *rapid.T, tier string) any {
 		for _, st := range s.Stmts {
 			if st.Kind == gen.StSend && !st.All && st.Sent.Kind == gen.EMon {
 				st.Sent.R = gen.NumI(int64(-1 - gen.Uniform(t, "c12b.neg", 9)))
+				assetExpr := st.Sent.L
+				// negative amounts beyond the machine word come through a variable
+				if st.Sent.L.Kind == gen.EAsset && gen.Chance(t, "c12b.negbig", 30) {
+					s.Vars = append(s.Vars, gen.VarDecl{Type: "monetary", Name: "negamt"})
+					ec.Vars["negamt"] = st.Sent.L.Text + " " + gen.Pick(t, "c12b.negbigv", []string{"-9223372036854775808", "-9223372036854775809", "-18446744073709551616", "-18446744073709551617", "-340282366920938463463374607431768211456"})
+					st.Sent = gen.Var("negamt")
+				}
 				// sometimes the sources are reached only through caps (or there are none)
 				switch gen.Uniform(t, "c12b.negsrc", 4) {
 				case 0:
-					st.Src = &gen.Src{Kind: gen.SCapped, Cap: gen.Mon(st.Sent.L, gen.NumI(int64(gen.Uniform(t, "c12b.negcap", 20)))), From: st.Src}
+					st.Src = &gen.Src{Kind: gen.SCapped, Cap: gen.Mon(assetExpr, gen.NumI(int64(gen.Uniform(t, "c12b.negcap", 20)))), From: st.Src}
 				case 1:
 					st.Src = &gen.Src{Kind: gen.SInorder}
 				}
